@@ -61,6 +61,8 @@ def run(rep, tier, seed):
     d = core.rundir("C01")
     gen = api_cases(rep, d, tier)
     roundtrip(rep, d, gen, "C01")
+    from . import c12
+    c12.vertex_limit_leg(rep, d, tier)
     return rep.finish(rule="TLC enumerates API-level library descriptions (polygons, simple "
                            "Flex/RobustPaths with 1-2 elements and every end type, labels, "
                            "references by pointer and by name; each x every repetition kind; "
